@@ -22,6 +22,7 @@ func init() {
 			"R5": "signals carry the validated index",
 			"R6": "auto-next on round close; state channel closed once on game close",
 			"R7": "response timeout wiring",
+			"R9": "each asked player is allowed the matching answer (ready / pay) in the same step and nobody else; after the group step succeeded the allowance is filtered out of every player's actions (others kept) and the ante / blinds received-hook gets the new state; the ante collection is skipped only when no ante is configured",
 			"R8": "state propagation: the hand keeps and queues a clone of every new state unless closed; the consumer dispatches it; the dispatcher runs the event handler and then the engine hook; the hook (registered before Start) stores the state in the table, runs settle → continue on game-closed and publishes game-updated otherwise",
 		},
 		Assumptions: []string{"pokerface emits the request events; syncsaga completes when all added participants are ready"},
@@ -34,6 +35,7 @@ func checkC11(c *Ctx) {
 	p := c.P
 	// R8: every new hand state travels hand → queue → dispatcher → engine hook → table and is published
 	checkUpdateHook(c, "R8", "register", "store", "dispatch", "publish", "pump")
+	checkPayRouting(c, "R5")
 	gt := p.singleImpl("", "Game")
 	if gt == nil {
 		c.Bad("R1", "anchors", "-", "hand implementation not found")
@@ -197,6 +199,148 @@ func checkC11(c *Ctx) {
 			}
 		}
 		c.Check(n == 1 && wrong == "", "R3", key+":completion", p.Pos(cl.Pos()), "completion performs exactly its own group step", fmt.Sprintf("the %s completion performs %d group step(s) %s", r, n, wrong))
+		// R9: whoever is asked is allowed the answer, and the allowance is withdrawn once the step is done
+		action := map[string]string{"ready": "ready", "ante": "pay", "blinds": "pay"}[r]
+		for _, a := range by["Add"] {
+			idx := a.Args[1].Strip()
+			allowed := false
+			for _, in := range a.Top.Block().Instrs {
+				ci, isC := in.(ssa.CallInstruction)
+				if !isC || calleeName(ci.Common()) != "pokerface.PlayerState.AllowAction" {
+					continue
+				}
+				cs := p.CallSym(ci)
+				nm, _ := cs.Args[len(cs.Args)-1].ConstString()
+				if nm == action && idx.Kind == "field" && cs.Args[0].Strip().String() == idx.Args[0].Strip().String() {
+					allowed = true
+				}
+			}
+			c.Check(allowed, "R9", key+":asked-player-allowed", p.InstrPos(a.Top), "asked player is allowed \""+action+"\" in the same step", "a player the "+r+" handler waits for is not allowed the \""+action+"\" action: the answer would be refused and the hand cannot advance")
+		}
+		// every grant has its Add (nobody is allowed without being waited for)
+		for _, ci := range Calls(f) {
+			if calleeName(ci.Common()) != "pokerface.PlayerState.AllowAction" {
+				continue
+			}
+			paired := false
+			for _, a := range by["Add"] {
+				if a.Top.Block() == ci.Block() {
+					paired = true
+				}
+			}
+			c.Check(paired, "R9", key+":allowance-only-for-asked", p.InstrPos(ci), "allowance granted together with the Add", "the "+r+" handler allows the answer to a player it does not wait for")
+		}
+		if cl != nil {
+			var step *ssa.Call
+			for _, ci := range Calls(cl) {
+				if call, isCall := ci.(*ssa.Call); isCall {
+					for _, gf := range groupSteps {
+						if gf != nil && call.Common().StaticCallee() == gf {
+							step = call
+						}
+					}
+				}
+			}
+			withdrawn := false
+			for _, ss := range p.Stores([]*ssa.Function{cl}) {
+				if ss.Field != "AllowedActions" {
+					continue
+				}
+				pl := ss.Addr.Strip().Args[0].Strip()
+				whole := pl.Kind == "index" && fullRange(pl.Args[1], func(x *Sym) bool { return x.Strip().Kind == "field" && x.Strip().Name == "Players" })
+				v := ss.Val.Strip()
+				filters := v.Contains(func(x *Sym) bool { return x.IsCall("funk.Filter") })
+				keepsOthers := false
+				for _, fc := range Calls(cl) {
+					if calleeName(fc.Common()) != "funk.Filter" {
+						continue
+					}
+					for _, pred := range closureOperands(fc.Common().Args[1]) {
+						for _, b := range pred.Blocks {
+							if rr, isR := b.Instrs[len(b.Instrs)-1].(*ssa.Return); isR {
+								rv := p.Sym(rr.Results[0]).Strip()
+								if rv.Kind == "binop" && rv.Name == "!=" {
+									l, r2 := rv.Args[0].Strip(), rv.Args[1].Strip()
+									for k := 0; k < 2; k++ {
+										if nm, _ := r2.ConstString(); nm == action && l.Kind == "param" {
+											keepsOthers = true
+										}
+										l, r2 = r2, l
+									}
+								}
+							}
+						}
+					}
+				}
+				after := step != nil && nilGuard(p.Guards(ss.Instr), true, func(x *Sym) bool { return isErrOf(x, step) })
+				// filtered list = that same player's allowed actions; the only condition allowed: it contains the action
+				sameList := false
+				for _, fc := range Calls(cl) {
+					if calleeName(fc.Common()) == "funk.Filter" {
+						a0 := p.Sym(fc.Common().Args[0]).Strip()
+						if a0.Kind == "field" && a0.Name == "AllowedActions" && a0.Args[0].Strip().String() == pl.String() {
+							sameList = true
+						}
+					}
+				}
+				condOK := true
+				for _, g := range p.Guards(ss.Instr) {
+					cs := g.Cond.Strip()
+					if cs.IsCall("funk.Contains") {
+						a0 := cs.Args[0].Strip()
+						nm, _ := cs.Args[1].ConstString()
+						if !(g.Val && nm == action && a0.Kind == "field" && a0.Name == "AllowedActions" && a0.Args[0].Strip().String() == pl.String()) {
+							condOK = false
+						}
+					}
+				}
+				if whole && filters && keepsOthers && after && sameList && condOK {
+					withdrawn = true
+				}
+			}
+			c.Check(withdrawn, "R9", key+":allowance-withdrawn", p.Pos(cl.Pos()), "after the step succeeded, \""+action+"\" is filtered out of every player's allowed actions (others kept)", "once the "+r+" step is done the \""+action+"\" allowance is not withdrawn from every player (or other allowances are dropped with it)")
+			// the engine's received-hook of this step, with the new state, on success
+			if r == "ante" || r == "blinds" {
+				hook := map[string]string{"ante": "onAntesReceived", "blinds": "onBlindsReceived"}[r]
+				okHook := false
+				for _, ci := range Calls(cl) {
+					cm := ci.Common()
+					if cm.IsInvoke() || cm.StaticCallee() != nil {
+						continue
+					}
+					if p.Sym(cm.Value).Strip().IsField("game", hook) && step != nil && nilGuard(p.Guards(ci), true, func(x *Sym) bool { return isErrOf(x, step) }) {
+						a0 := p.Sym(cm.Args[0]).Strip()
+						okHook = a0.Kind == "extract" && a0.Args[0].Strip().Kind == "call" && a0.Args[0].Strip().Call == ssa.CallInstruction(step)
+					}
+				}
+				c.Check(okHook, "R9", key+":received-hook", p.Pos(cl.Pos()), hook+"(new state) after success", "the "+r+" completion does not report the collected "+r+" through its own received-hook with the new state")
+			}
+		}
+		if r == "ante" {
+			// the only early exit: no ante configured
+			ok := true
+			for _, b := range f.Blocks {
+				if rr, isR := b.Instrs[len(b.Instrs)-1].(*ssa.Return); isR {
+					for _, g := range p.Guards(rr) {
+						if cm := g.AsCmp(); cm != nil && cm.L.Strip().IsField("", "Ante") {
+							z, isZ := cm.R.ConstInt()
+							if !(isZ && z == 0 && cm.Op == token.EQL) && !(isZ && z == 0 && (cm.Op == token.NEQ || cm.Op == token.GTR)) {
+								ok = false
+							}
+							if cm.Op == token.EQL && !Dominates(rr, stop.Top) && Reaches(stop.Top, rr) {
+								ok = false
+							}
+						}
+					}
+				}
+			}
+			// the protocol itself runs under Ante != 0
+			runs := cmpHolds(p.Guards(start.Top), func(l, r2 *Sym, op token.Token) bool {
+				z, isZ := r2.ConstInt()
+				return isZ && z == 0 && (op == token.NEQ || op == token.GTR) && l.Strip().IsField("", "Ante")
+			})
+			c.Check(ok && runs, "R9", key+":skipped-only-without-ante", p.Pos(f.Pos()), "collects whenever Meta.Ante != 0", "the ante handler skips the collection although an ante is configured (or collects when none is)")
+		}
 	}
 	c.Min("R2", "request handlers", nReq, 3)
 	// R3 who-may-call
